@@ -69,10 +69,48 @@ type FieldDom struct {
 	Descend map[string]bool
 	prog    *load.Program
 	inputs  map[string]*FE // decoded input slices
+	encOf   map[string]*FE // canonical-encoding atom name -> the element it encodes
 }
 
 func NewFieldDom(p *load.Program) *FieldDom {
-	return &FieldDom{R: poly.NewRing(P25519), eqAtoms: map[string]string{}, Descend: map[string]bool{}, prog: p, inputs: map[string]*FE{}}
+	return &FieldDom{R: poly.NewRing(P25519), eqAtoms: map[string]string{}, Descend: map[string]bool{}, prog: p, inputs: map[string]*FE{}, encOf: map[string]*FE{}}
+}
+
+// encodedElement: is s the complete canonical encoding (32 bytes, in order) of one element?
+func (d *FieldDom) encodedElement(in *Interp, site ssa.Instruction, s Val) (*FE, bool) {
+	sl, ok := s.(SliceV)
+	if !ok || sl.Len != 32 {
+		return nil, false
+	}
+	el := in.SliceElems(site, s)
+	name := ""
+	allConst := true
+	val := new(big.Int)
+	for i, e := range el {
+		switch b := e.(type) {
+		case ByteS:
+			allConst = false
+			if b.Enc == "" || b.Idx != i || (name != "" && b.Enc != name) {
+				return nil, false
+			}
+			name = b.Enc
+		case Int:
+			if name != "" {
+				return nil, false
+			}
+			val.Or(val, new(big.Int).Lsh(b.V, uint(8*i)))
+		default:
+			return nil, false
+		}
+	}
+	if allConst {
+		if val.Cmp(P25519) >= 0 {
+			return nil, false
+		}
+		return d.Const(val), true
+	}
+	fe, ok := d.encOf[name]
+	return fe, ok
 }
 
 func (d *FieldDom) Name() string { return "field-expression (E9)" }
@@ -368,6 +406,15 @@ func (d *FieldDom) Call(in *Interp, site ssa.Instruction, fn *ssa.Function, args
 		// initialised points (that uninitialised ones panic is C15's rule)
 		return nil, true
 	}
+	if fn.String() == "crypto/subtle.ConstantTimeCompare" && len(args) == 2 {
+		// canonical encodings are equal exactly when the elements are
+		a, okA := d.encodedElement(in, site, args[0])
+		b, okB := d.encodedElement(in, site, args[1])
+		if okA && okB {
+			return []Val{BitP{d.Eq(a, b)}}, true
+		}
+		return nil, false
+	}
 	if fn.Pkg != in.P.Field {
 		return nil, false
 	}
@@ -491,6 +538,7 @@ func (d *FieldDom) Call(in *Interp, site ssa.Instruction, fn *ssa.Function, args
 			}
 		} else {
 			name := d.fnAtomName("enc", a)
+			d.encOf[name] = a
 			for i := 0; i < 32; i++ {
 				arr.Elems[i] = ByteS{Enc: name, Idx: i}
 			}
